@@ -12,6 +12,7 @@ import (
 
 	"github.com/taurusgroup/multi-party-sig/internal/round"
 	"github.com/taurusgroup/multi-party-sig/pkg/math/curve"
+	"github.com/taurusgroup/multi-party-sig/pkg/protocol"
 	"github.com/taurusgroup/multi-party-sig/verif/ref"
 )
 
@@ -176,4 +177,55 @@ func RoundOf(h interface{}) (r int) {
 		return int(n.Number())
 	}
 	return -1
+}
+
+// FinalRound returns the final round number of the handler's protocol (0 if unknown).
+func FinalRound(h interface{}) (r int) {
+	defer func() { _ = recover() }()
+	rv := reflect.ValueOf(h)
+	for rv.Kind() == reflect.Ptr || rv.Kind() == reflect.Interface {
+		rv = rv.Elem()
+	}
+	f := rv.FieldByName("currentRound")
+	if !f.IsValid() {
+		f = rv.FieldByName("round")
+	}
+	if !f.IsValid() {
+		return 0
+	}
+	f = reflect.NewAt(f.Type(), unsafe.Pointer(f.UnsafeAddr())).Elem()
+	if n, ok := f.Interface().(interface{ FinalRoundNumber() round.Number }); ok {
+		return int(n.FinalRoundNumber())
+	}
+	return 0
+}
+
+// SetBroadcastHash overwrites a MultiHandler's recorded view hash of a round (used only on the
+// *cheater's* handler, to model a consistent liar that adopts the honest parties' view).
+func SetBroadcastHash(h interface{}, r int, bv []byte) {
+	defer func() { _ = recover() }()
+	rv := reflect.ValueOf(h)
+	for rv.Kind() == reflect.Ptr || rv.Kind() == reflect.Interface {
+		rv = rv.Elem()
+	}
+	f := rv.FieldByName("broadcastHashes")
+	if !f.IsValid() {
+		return
+	}
+	f = reflect.NewAt(f.Type(), unsafe.Pointer(f.UnsafeAddr())).Elem()
+	if m, ok := f.Interface().(map[round.Number][]byte); ok {
+		m[round.Number(r)] = append([]byte{}, bv...)
+	}
+}
+
+// ChanClosed polls a handler's outgoing channel once.
+func ChanClosed(h interface {
+	Listen() <-chan *protocol.Message
+}) bool {
+	select {
+	case _, ok := <-h.Listen():
+		return !ok
+	default:
+		return false
+	}
 }
